@@ -20,8 +20,8 @@ Every finite table of the Rust source is a separate small `def` by pattern match
 Conventions.  A half-edge ("slot") is a pair `(i, j)`: crossing index `i`, position `j ∈ {0,1,2,3}` in its
 edge array.  Index panics of the Rust code (`self.data[i]`, `c.edge(j)` with `assert!(j < 4)`) are not
 reachable from the public entry points modelled here: `i` always comes from `0..n` or from a `pass_edge`
-result and `j` from `{0,1,2}`, `pass` or a `pass_edge` result (lemmas `passEdge_lt`, `pass_lt` in
-`Proofs/C18.lean`).  `edgeAt`/`ctypeAt` are therefore total with a dummy default.
+result and `j` from `{0,1,2}`, `pass` or a `pass_edge` result (lemmas `passEdge_range` in `Proofs/C18Renumber.lean`, `pass_lt` in
+`Props/C18.lean`).  `edgeAt`/`ctypeAt` are therefore total with a dummy default.
 -/
 namespace Yuiv.C18
 open Yuiv
